@@ -1,0 +1,25 @@
+//go:build verif
+
+package pos
+
+// Contracts checked by /verif/govc (contract-based deductive verification).
+// Comment-only: with the `verif` tag off this file is not even parsed.
+
+// A stake message changes the application set only along one of two validated paths:
+//  - transfer: the signer is a staked application and the target key has no record (no coins move)
+//  - stake / edit-stake: admission checks passed
+//@ func handleStake
+//@   props C28,C20,C14,C12
+//@   modifies all
+//@   ensures [transfer-only-by-staked-signer] appDelN != old(appDelN) && lastDelApp != lastSetAppAddr ==> old(appHas[pkAddr(signer)]) && old(appStatus[pkAddr(signer)]) == 2 && !old(appHas[pkAddr(msg.PubKey)])
+//@   ensures [transfer-moves-no-coins] appDelN != old(appDelN) && lastDelApp != lastSetAppAddr ==> bankA2MN == old(bankA2MN) && bankSendN == old(bankSendN) && bankBurnN == old(bankBurnN)
+//@   ensures [new-stake-admitted] bankA2MN != old(bankA2MN) && !(old(appHas[pkAddr(msg.PubKey)]) && ctxAfterUpgrade(ctx) && old(appStatus[pkAddr(msg.PubKey)]) == 2) ==> old(bigv[msg.Value.i]) >= aMinStake(ctx) && len(msg.Chains) <= aMaxChains(ctx) && (ctxAfterUpgrade(ctx) ==> aStakedCount(ctx) < aMaxApps(ctx))
+//@   ensures [edit-no-decrease] appSetN != old(appSetN) && appDelN == old(appDelN) + 1 && old(appHas[pkAddr(msg.PubKey)]) && ctxAfterUpgrade(ctx) && old(appStatus[pkAddr(msg.PubKey)]) == 2 && !(old(appHas[pkAddr(signer)]) && old(appStatus[pkAddr(signer)]) == 2 && !old(appHas[pkAddr(msg.PubKey)])) ==> old(bigv[msg.Value.i]) >= old(appStake[pkAddr(msg.PubKey)])
+//@   ensures [never-pays-out] bankSendN == old(bankSendN) && bankBurnN == old(bankBurnN)
+
+// begin-unstake: only an existing, staked, unjailed application; no coins move
+//@ func handleMsgBeginUnstake
+//@   props C24,C12
+//@   modifies all
+//@   ensures [only-staked] appSetN != old(appSetN) ==> old(appHas[bytes(msg.Address)]) && old(appStatus[bytes(msg.Address)]) == 2 && lastSetApp.Status == 1
+//@   ensures [no-coins-move] bankA2MN == old(bankA2MN) && bankSendN == old(bankSendN) && bankBurnN == old(bankBurnN)
